@@ -915,6 +915,14 @@ val union_body : ascii list -> (ascii list * ascii list) option
 
 val errtok : tok0
 
+val is_union : lkind -> bool
+
+type step_result =
+| Done of tok0 list * tail
+| Cont of tok0 list * ascii list * ascii list
+
+val lex_step : ascii list -> ascii list -> step_result
+
 val lex_root : nat -> ascii list -> ascii list -> tok0 list * tail
 
 val lex : ascii list -> tok0 list * tail
